@@ -344,6 +344,10 @@ def run(chk, prog, tier):
             rb += b
     chk.rule('C01.signature-regions', 'every (pointer,length) region of the decoded signature handed to the crypto library lies inside it',
              rn, rb, floor=12)
+    # the decoder's table lookup stays inside the table for every input byte (shared with C11): part of memory safety here
+    from props import c11
+    en, de = c11.check_tables(chk, prog)
+    chk.guard('decoder byte decisions', c11.check_byte_decisions, chk, prog, model, len(de))
     check_rejection(chk, prog, env, model)
     eff = effects.Effects(prog)
     check_termination(chk, prog, eff, [eff.find('jwt_checker_verify', T.VARIANT_UNIT['checker'])])
